@@ -31,7 +31,7 @@ release or for being read) and no running `chords-v2-min-idle` cool-down. -/
 theorem idle_implies_chv2_at_rest (s : KV2) (ms : Nat) (h : (canBlockV2 s ms).2 = true) :
     isIdle s.k = true ∧ s.k.waitingForIdle = [] ∧ Chv2RestO s.chv2 := by
   simp only [canBlockV2, isIdleV2, Bool.and_eq_true, Bool.not_eq_true', Bool.or_eq_false_iff] at h
-  obtain ⟨⟨⟨⟨hi, hc⟩, hcnt⟩, _⟩, hacc⟩ := h
+  obtain ⟨⟨⟨⟨⟨hi, hc⟩, hcnt⟩, _⟩, hacc⟩, _⟩ := h
   refine ⟨hi, ?_, ?_⟩
   · have := hcnt.1
     simpa using this
@@ -95,6 +95,12 @@ theorem block_silent_v2 (s : KV2) (cur' : List KeyCode) (ost : Override.Override
   refine ⟨?_, ho, hst, ?_, ?_, ⟨hm, restTickO_rest _ _ hr⟩⟩
   · unfold tickStatesV2
     simp only [e1, e2, e3]
+    have hb : tickBook k1 = C07.afterQuietTick s.k cur' ost := by
+      unfold tickBook
+      have hrc : k1.dyn.rcd = none := hk.noRec
+      simp only [dynTickRecord, hrc]
+      rfl
+    rw [hb]
     exact e4
   · intro ch hch
     refine ⟨restTick ch s.k.layout.currentLayer, ?_, rfl, (hr ch hch).queue, (hr ch hch).active, (hr ch hch).cool, rfl⟩
@@ -136,7 +142,7 @@ def heldWithTable : KV2 :=
 
 example : MayBlockV2 heldWithTable [30] Override.OverrideStates.new :=
   ⟨⟨rfl, rfl, by intro st hst; simp [heldWithTable] at hst; subst hst; trivial, rfl, rfl, rfl,
-    ⟨fun _ h => h, fun _ h => h⟩⟩,
+    ⟨fun _ h => h, fun _ h => h⟩, rfl⟩,
    by intro ch hch; simp only [heldWithTable, Option.some.injEq] at hch; rw [← hch]; exact ⟨rfl, rfl, rfl⟩⟩
 
 /-! ## Runs of the composed model -/
